@@ -103,6 +103,7 @@ type ScenarioCfg struct {
 	HeaderAuth        string            `json:"headerAuth"`
 	WSHeaderAuth      string            `json:"wsHeaderAuth"`
 	APIEncoding       string            `json:"apiEncoding"`
+	Mapped            bool              `json:"mapped"` // PUT, DELETE, PATCH mapped to call methods a, aa, aaa
 }
 
 type nopLogger struct{ w *World }
@@ -152,6 +153,10 @@ func NewWorld(t *testing.T, cfg ScenarioCfg) *World {
 	}
 	if cfg.APIEncoding != "" {
 		sc.APIEncoding = cfg.APIEncoding
+	}
+	if cfg.Family == "subjects" || cfg.Mapped {
+		put, del, pat := "a", "aa", "aaa"
+		sc.PUTMethod, sc.DELETEMethod, sc.PATCHMethod = &put, &del, &pat
 	}
 	svc, err := server.NewService(w.mq, sc)
 	if err != nil {
